@@ -5,7 +5,7 @@ W=$1; CRATE=$2
 export CARGO_TARGET_DIR=$W/target CARGO_NET_OFFLINE=true
 cd $W || exit 2
 rm -f $W/*/tests/seeded_demo.rs
-git apply --check -R SEEDED/patch.diff 2>/dev/null || { git checkout -q -- . ; git apply SEEDED/patch.diff || exit 2; }
+git checkout -q -- . ; git apply SEEDED/patch.diff || exit 2
 echo "== suite with the change"
 cargo test --workspace --no-fail-fast --offline 2>&1 | grep -E "^test result" | awk '{p+=$4; f+=$6} END {print "passed="p" failed="f}'
 mkdir -p $CRATE/tests; cp SEEDED/demo.rs $CRATE/tests/seeded_demo.rs
